@@ -1,7 +1,16 @@
 """C09: k-medoids refinement never worsens the cost and keeps centres in the data."""
 from fractions import Fraction as F
 import cluster_common as cc
-from cluster_common import CASE_HEADER, MODEL_TARGETS
+from cluster_common import CASE_HEADER, MODEL_TARGETS, GEN_FILES
+import os, sys
+from core import VERIF
+sys.path.insert(0, os.path.join(VERIF, "translator"))
+import tr_kcguard
+
+
+def translate(repo):
+    return tr_kcguard.translate(repo)
+
 
 PID = "C09"
 PROPS_FILE = "Props/C09.v"
